@@ -93,7 +93,11 @@ def judge(c, cls, d, honest_key):
         return '%s=%s%s' % (fe[0], ename(fe[1]), '' if fe[1] == c['val_code'] else '(code changed)'), None, None
     if cls[0] == 'unbound':
         if allok and ka == kb == honest_key:
-            return 'unbound:accepted', None, 'negated point (x, p-y) accepted with the honest key (x-only key derivation of the standard)'
+            # literal violation of the property statement ("if any transmitted message is altered ... a party that requires
+            # confirmation returns an error, and without confirmation the two derived keys differ"); it is the behaviour the
+            # standards prescribe, so it is listed in known_findings.txt (KNOWN-FINDING, not repaired) -- see DESIGN.md 9.5
+            return 'unbound:accepted', ('the transmitted point P replaced by -P = (x, p-y): every step ERR_OK and both parties hold the honest key '
+                                        '(key and tags are derived from x-coordinates only, as STB 34.101.66 / 34.101.79 prescribe) [%s]' % steps), None
         return 'unbound:other', None, 'negated point (x, p-y) in %s: unexpected behaviour [%s] keys %s' % (c['proto'], steps, 'equal' if ka == kb else 'differ')
     # bound
     if allok and ka == kb:
@@ -454,7 +458,8 @@ def run(tier):
     chk.sample({'scenario': short_sc(dict(b0, val_fail=3, val_code=E['BAD_CERT'])), 'oracle': 'A.Step3 must fail'})
     chk.sample({'driver': 'bakeBSTSRunB', 'faults': 'every read/write call index x {error codes, premature end = ERR_MAX (0, half, all-1 octets), short read (0, half)}'})
     chk.observe('BPACE M2/M3 and BAUTH M1 (kcb=0): replacing the transmitted point P by -P = (x, p-y) is not detected and both parties derive the same key, '
-                'because STB 34.101.66 (7.x BPACE: K = <ua Vb>_2l, Y over <Va>_2l, <Vb>_2l) and BAUTH use x-coordinates only; the implementation follows the standard')
+                'because BPACE (STB 34.101.66: K = <ua Vb>_2l, Y = belt-hash(<K>_2l || <Va>_2l || <Vb>_2l || hello)) and BAUTH (K = <dt Vct>_2l) use x-coordinates only; '
+                'the implementation follows the standards (in BSTS, BMQV and BAUTH with kcb=1 the sign of y IS bound and -P is rejected)')
     chk.assumptions += ['certificates: opaque prefix || <Q>_4l with the validator of bake_test.c (last l/2 octets); the validator is drv/vh_c04.c',
                         'the peer of a Run driver is the recorded step-by-step transcript (read never crosses a message boundary, ERR_MAX at the end of a message that is shorter than the request)',
                         'tamper classes are decided by ref/ecp.py (on-curve test) on the altered octets; filler values only in keys, tapes, hello, passwords',
@@ -473,7 +478,9 @@ def replay(rec):
         cls = tuple(rec['cls'])
         hk = None
         if cls[0] == 'unbound':
-            return None
+            base = {k: v for k, v in c.items() if not k.startswith('act')}
+            with vf.Arena(L) as A:
+                hk = dialogue(L, base, A)['keyA']
         with vf.Arena(L) as A:
             d = dialogue(L, c, A)
         return judge(c, cls, d, hk)[1]
